@@ -294,6 +294,7 @@ RejoinOrUndead(c) ==
 
 HandleSelfUpdate(c, inc, state) ==
     IF ~Live(c) THEN c
+    ELSE IF state = "S" /\ c.st.conn = "U" THEN c   \* (fix f6702a7) a dead identity does not refute
     ELSE IF state = "S" THEN
         LET increase == c.st.inc <= inc
             mx == Max(inc, c.st.inc)
